@@ -285,6 +285,11 @@ func (p *Parser) parseVP8XChunks(buf []byte) error {
 		buf = buf[chunkTotal:]
 	}
 
+	if len(p.frames) == 0 {
+		// An extended file without any image data (still image chunk or
+		// ANMF frame) is incomplete: it was cut before the image.
+		return ErrTruncated
+	}
 	return nil
 }
 
